@@ -293,10 +293,33 @@ def check_codec(chk, repo, P):
     chk.require(tup is not None and "data" in _dict_keys(tup), R("K4"), f"{enc.relpath}:preprocess", "tuples are tagged {'__type__': 'tuple', 'data': [...]}",
                 "tuple tag document lost its 'data' key", key="preprocess:doc")
     post = dec.func("postprocess")
-    txt = " ".join(norm(n) for n in post.node.body)
-    ok_post = "tuple(obj['data'])" in txt.replace('"', "'") and "'tuple'" in txt.replace('"', "'")
-    chk.require(ok_post, R("K4"), f"{dec.relpath}:postprocess", "postprocess rebuilds tuple(obj['data']) for tagged documents",
-                f"postprocess does not rebuild tuples: {short(post.node, 160)}", key="postprocess:rebuild")
+    # the object hook evaluated on model documents: a tagged tuple document becomes the tuple of its data, anything else is handed back
+    from collections import OrderedDict
+    from .shapes import Const, DictS, Interp, ListLit, ShapeError, TupS, _Raise
+    I = Interp(repo)
+    hook = I.lookup("postprocess", I.module_scope(dec))
+    inner = ListLit([Const(1), ListLit([Const(2)]), Const("x")])
+    docs = [("tuple", DictS(OrderedDict([("__type__", Const("tuple")), ("data", inner)]))),
+            ("empty tuple", DictS(OrderedDict([("__type__", Const("tuple")), ("data", ListLit([]))]))),
+            ("array", DictS(OrderedDict([("__type__", Const("array")), ("dtype", Const("int8")), ("data", ListLit([Const(1)])), ("encoding", DictS())]))),
+            ("plain", DictS(OrderedDict([("data", ListLit([Const(1)])), ("units", Const("s"))]))),
+            ("untagged-empty", DictS())]
+    for label, doc in docs:
+        try:
+            got = I.call(hook, [doc], {})
+        except _Raise as e:
+            chk.fail(R("K4"), f"{dec.relpath}:postprocess", f"postprocess raises on a {label} document ({e.what[:80]}): every JSON object of the index passes through it", key=f"postprocess:{label}")
+            continue
+        except (ShapeError, RecursionError) as e:
+            raise AnalysisError(f"{dec.relpath}:postprocess cannot be evaluated on a {label} document: {str(e)[:100]}")
+        if label.endswith("tuple"):
+            want = doc.items["data"].elts
+            ok_post = isinstance(got, TupS) and len(got.elts) == len(want) and all(a is b for a, b in zip(got.elts, want))
+            chk.require(ok_post, R("K4"), f"{dec.relpath}:postprocess", f"postprocess rebuilds the tuple of a tagged document ({label})",
+                        f"postprocess turns the tagged document {{'__type__': 'tuple', 'data': [...]}} into {got!r:.80}: tuples do not come back as the tuple of their elements", key="postprocess:rebuild")
+        else:
+            chk.require(got is doc, R("K4"), f"{dec.relpath}:postprocess", f"postprocess hands a {label} document back unchanged",
+                        f"postprocess turns a {label} document into {got!r:.80}: documents other than tagged tuples must pass through", key=f"postprocess:{label}")
     # wiring
     efi = cach.func("encode")
     dfi = cach.func("decode")
